@@ -170,6 +170,15 @@ func runSchedule(c *SCase, dir string) (res Result) {
 			calls[g] = call{do: func() (string, error) { return e.Render("same", map[string]interface{}{"x": g}) },
 				want: map[int]string{2: fmt.Sprintf("ver:2:%d", g)}}
 		}
+	case "regcold":
+		// nothing is cached; the loader holds version 1; goroutine 1 registers version 2 while the others load
+		e.RegisterLoader(twig.NewArrayLoader(map[string]string{"same": "ver:1:{{ x }}"}))
+		calls[1] = call{do: func() (string, error) { return "", e.RegisterString("same", "ver:2:{{ x }}") }, want: map[int]string{0: ""}}
+		for g := 2; g <= c.NG; g++ {
+			g := g
+			calls[g] = call{do: func() (string, error) { return e.Render("same", map[string]interface{}{"x": g}) },
+				want: map[int]string{1: fmt.Sprintf("ver:1:%d", g), 2: fmt.Sprintf("ver:2:%d", g)}}
+		}
 	case "regrender":
 		e.RegisterString("same", "ver:1:{{ x }}")
 		calls[1] = call{do: func() (string, error) { return "", e.RegisterString("same", "ver:2:{{ x }}") }, want: map[int]string{0: ""}}
@@ -305,6 +314,13 @@ func runSchedule(c *SCase, dir string) (res Result) {
 			fail("call-error", fmt.Sprintf("goroutine %d: %v", g, o.err), want)
 		} else if o.out != want {
 			fail("result-differs-from-serial", fmt.Sprintf("goroutine %d: %q", g, o.out), want)
+		}
+	}
+	// the registration has completed: whatever the interleaving was, the name now means the registered source
+	if c.Workload == "regcold" || c.Workload == "regrender" {
+		twig.VerifSetHook(nil)
+		if out, err := e.Render("same", map[string]interface{}{"x": "f"}); err != nil || out != "ver:2:f" {
+			fail("registration-lost", fmt.Sprintf("a render after all calls returned gives %q, %v", out, err), "ver:2:f")
 		}
 	}
 	return
